@@ -6,9 +6,9 @@ namespace Qentem.Props.C18
 open Qentem.Value Qentem.Value.Doc
 
 /-- `GroupBy` is a `const` member: in the forest only the destination root changes. -/
-theorem groupBy_source_unchanged (fmtReal : Nat → List Nat) (dest : Nat) (s : Loc) (k : Key) (p : Bool)
+theorem groupBy_source_unchanged (fmtReal : Nat → List Nat) (dest : Nat) (s : Loc) (k : Key)
     (env : Env) (r : Nat) (h : r ≠ dest) :
-    envGet (step fmtReal (Op.groupBy dest s k p) env).1 r = envGet env r := by
+    envGet (step fmtReal (Op.groupBy dest s k) env).1 r = envGet env r := by
   simp only [step]
   split
   · rfl
